@@ -308,7 +308,8 @@ def three_execs(which, f: int, typ: int, c0: int, c1: int, c2: int, c3: int, c4:
 SCN["three_execs"] = (["0 <= f <= 3 and 0 <= typ < 2"], 900, 2400, ("thorough",))
 
 
-BOUNDS = {"map_iter_catch": {"quick": {"N": 3}, "thorough": {"N": 4}}, "map_fail_batches": {"quick": {"N": 3}, "thorough": {"N": 4}}}
+_TAIL6 = " and ".join("c%d == 0" % i for i in range(6, 16))
+BOUNDS = {"gen_nested": {"quick": {"TAIL": _TAIL6}, "thorough": {"TAIL": "True"}}, "map_iter_catch": {"quick": {"N": 3}, "thorough": {"N": 4}}, "map_fail_batches": {"quick": {"N": 3}, "thorough": {"N": 4}}}
 _ALL = ("par3_mixed", "map_iter_catch", "map_fail_batches", "map_in_par", "par_in_map", "branch_fail_state", "par_longform", "three_execs")
 for _n in _ALL:
     scn.__dict__[_n] = globals()[_n]      # scn.register looks scenarios up in its own namespace
@@ -537,3 +538,105 @@ def fan_catch_paths(which, kind: int, rp: int, srp: int, c0: int, c1: int, c2: i
 
 SCN["fan_catch_paths"] = (["0 <= kind < 2 and 0 <= rp < 3 and 0 <= srp < 2"], 600, 1800, ("quick", "thorough"))
 scn.__dict__["fan_catch_paths"] = fan_catch_paths
+
+
+# ---------------------------------------------------------------------------
+# Generated two-level fan-out machines with an independent oracle (vf/ref/asl_step.py run with catch=True)
+# ---------------------------------------------------------------------------
+from vf.ref import asl_step as refi
+import copy as _copy
+
+
+def _gen_nested_machine(rk, rmc, ik, imc, catch_at):
+    def leaf(fn, **kw):
+        d = task(fn); d.update(kw)
+        return d
+    catcher = lambda nxt: [{"ErrorEquals": ["States.ALL"], "ResultPath": "$.err", "Next": nxt}]
+    wrap = {"Type": "Pass", "Parameters": {"recovered.$": "$"}, "End": True}       # (no top-level Error member in an output)
+    if ik == 0:
+        a = leaf("a", End=True)
+        sub = {"StartAt": "A", "States": {"A": a}}
+        if catch_at == 3:
+            a["Catch"] = catcher("LR"); sub["States"]["LR"] = _copy.deepcopy(wrap)
+    else:
+        if ik == 1:
+            la = leaf("a", End=True); lsub = {"StartAt": "A", "States": {"A": la}}
+            if catch_at == 3:
+                la["Catch"] = catcher("LR"); lsub["States"]["LR"] = _copy.deepcopy(wrap)
+            Q = {"Type": "Parallel", "End": True, "Branches": [lsub, {"StartAt": "B", "States": {"B": leaf("b", End=True)}}]}
+        else:
+            ll = leaf("l", End=True); lsub = {"StartAt": "L", "States": {"L": ll}}
+            if catch_at == 3:
+                ll["Catch"] = catcher("LR"); lsub["States"]["LR"] = _copy.deepcopy(wrap)
+            Q = {"Type": "Map", "ItemsPath": "$.m", "MaxConcurrency": imc, "End": True, "Iterator": lsub}
+        sub = {"StartAt": "Q", "States": {"Q": Q}}
+        if catch_at == 1:
+            Q["Catch"] = catcher("QR"); sub["States"]["QR"] = _copy.deepcopy(wrap)
+    if rk == 0:
+        root = {"Type": "Parallel", "Branches": [sub, {"StartAt": "C", "States": {"C": leaf("c", Next="D"), "D": {"Type": "Pass", "End": True}}}]}
+    else:
+        root = {"Type": "Map", "ItemsPath": "$.items", "MaxConcurrency": rmc, "Iterator": sub}
+    root["Next"] = "Z"; root["ResultPath"] = "$.out"
+    top = {"StartAt": "Root", "States": {"Root": root, "Z": {"Type": "Pass", "End": True}}}
+    if catch_at == 2:
+        root["Catch"] = catcher("R"); top["States"]["R"] = _copy.deepcopy(wrap)
+    return top
+
+
+def gen_nested(which, rk: int, rmc: int, ik: int, imc: int, catch_at: int, failing: int, c0: int, c1: int, c2: int, c3: int, c4: int, c5: int,
+               c6: int, c7: int, c8: int, c9: int, c10: int, c11: int, c12: int, c13: int, c14: int, c15: int):
+    """Generated machine: a root Parallel (rk 0) / Map over two items (rk 1, MaxConcurrency rmc) whose first branch /
+    iterator is a leaf Task (ik 0), a nested Parallel of two Tasks (ik 1) or a nested Map over two members (ik 2,
+    MaxConcurrency imc); a Catcher at the nested state (1), the root (2), the leaf Task (3) or nowhere (0); one leaf
+    invocation (or none) fails.  Status and output must be those of the reference interpreter, for every schedule
+    (quick tier: the first six scheduling decisions are arbitrary, the rest follow the canonical FIFO order)."""
+    rk = cint(rk, 0, 1); rmc = cint(rmc, 0, 2); ik = cint(ik, 0, 2); imc = cint(imc, 0, 2); catch_at = cint(catch_at, 0, 3); failing = cint(failing, 0, 3)
+    with s2.untraced():        # every selector is concrete from here on: build the machine and ask the reference outside the tracer
+        asl = _gen_nested_machine(rk, rmc, ik, imc, catch_at)
+    data = {"x": 1, "id": 0, "m": [{"k": 1, "id": 0}, {"k": 2, "id": 0}],
+            "items": [{"id": 0, "m": [{"k": 1, "id": 0}, {"k": 2, "id": 0}]}, {"id": 1, "m": [{"k": 1, "id": 1}, {"k": 2, "id": 1}]}]}
+    # which leaf invocation fails: the first (1) / second (2) leaf of the (last) nested unit, or the sibling Task c (3)
+    fid = 1 if rk == 1 else 0
+    if failing == 0:
+        spec = None
+    elif failing == 3:
+        spec = ("c", 0, None)
+    elif ik == 2:
+        spec = ("l", fid, failing)
+    elif ik == 1:
+        spec = ("a" if failing == 1 else "b", fid, None)
+    else:
+        spec = ("a", fid, None) if failing == 1 else None
+
+    def fails(fn, req):
+        return spec is not None and fn == spec[0] and isinstance(req, dict) and req.get("id", 0) == spec[1] and (spec[2] is None or req.get("k") == spec[2])
+
+    def mkw(fn):
+        def w(req):
+            if fails(fn, req):
+                return {"errorType": "Boom", "errorMessage": "leaf " + fn}
+            return {"by": fn, "k": req.get("k") if isinstance(req, dict) else None}
+        return w
+
+    def task_ref(resource, params):
+        fn = resource.rsplit(":", 1)[-1]
+        return ("err", "Boom") if fails(fn, params) else ("ok", {"by": fn, "k": params.get("k") if isinstance(params, dict) else None})
+    with s2.untraced():
+        want = refi.run(asl, _copy.deepcopy(data), {"Execution": {}}, task_ref, catch=True)
+
+    def chk(run, inst, mon):
+        got = s2.result_of()
+        g = (got[0], refi.strip_cause(got[1])) if got[0] == "SUCCEEDED" else got
+        w = (want[0], refi.strip_cause(want[1])) if want[0] == "SUCCEEDED" else want
+        if g != w:
+            return "C01/C05/C06 outcome %r, the States Language prescribes %r" % (g, w)
+        return ""
+    picks = [c0, c1, c2, c3, c4, c5, c6, c7, c8, c9, c10, c11, c12, c13, c14, c15]
+    return _run(asl, data, picks, {fn: mkw(fn) for fn in ("a", "b", "c", "l")}, which, "STANDARD", None, extra_check=chk, max_steps=400)
+
+
+SCN["gen_nested"] = (["0 <= rk < 2 and 0 <= rmc <= 2 and 0 <= ik <= 2 and 0 <= imc <= 2 and 0 <= catch_at <= 3 and 0 <= failing <= 3",
+                      "(rk == 1 or rmc == 0) and (ik == 2 or imc == 0) and not (catch_at == 1 and ik == 0) and not (failing == 3 and rk == 1) and not (failing == 2 and ik == 0)",
+                      "@TAIL@"],
+                     900, 2400, ("quick", "thorough"))
+scn.__dict__["gen_nested"] = gen_nested
